@@ -2,6 +2,7 @@
 package main
 
 import (
+	"syscall"
 	"bufio"
 	"compress/gzip"
 	"encoding/json"
@@ -39,6 +40,8 @@ type Prop struct {
 	Init    func(w *W)
 	Run     func(w *W, i uint64)
 	Finish  func(w *W)
+	Pre     func(p *Prop) // supervisor side, before workers start
+	Post    func(p *Prop) // supervisor side, after the verdict
 	Triage  func(f *Failure) string // attributes a baseline failure to an open finding ("" = unexplained)
 	// Exhaustive reports whether the thorough tier enumerates its stated finite domain completely.
 	Exhaustive bool
@@ -265,6 +268,12 @@ func check(propID, tier string, mode int, from, to uint64) int {
 	if p == nil {
 		fmt.Println("INCONCLUSIVE: unknown property", propID)
 		return 2
+	}
+	if p.Pre != nil {
+		p.Pre(p)
+	}
+	if p.Post != nil {
+		defer p.Post(p)
 	}
 	seed := seedFromEnv()
 	list, ver, err := loadCaseList(propID)
@@ -544,6 +553,9 @@ func runWorkerSegments(p *Prop, bin, tier string, seed uint64, dir string, k int
 		if stall == 0 {
 			stall = 240
 		}
+		if x, err := strconv.Atoi(os.Getenv("VERIF_STALL")); err == nil && x > 0 {
+			stall = x // diagnosis only
+		}
 		var werr error
 		stalled := false
 		lastSize := int64(-1)
@@ -560,9 +572,13 @@ func runWorkerSegments(p *Prop, bin, tier string, seed uint64, dir string, k int
 						lastChange = time.Now()
 					} else if time.Since(lastChange) > time.Duration(stall)*time.Second {
 						stalled = true
-						cmd.Process.Signal(os.Interrupt)
-						cmd.Process.Kill()
-						werr = <-done
+						cmd.Process.Signal(syscall.SIGQUIT) // goroutine dump into .err: names the function that does not return
+						select {
+						case werr = <-done:
+						case <-time.After(10 * time.Second):
+							cmd.Process.Kill()
+							werr = <-done
+						}
 						break loop
 					}
 				}
@@ -579,7 +595,7 @@ func runWorkerSegments(p *Prop, bin, tier string, seed uint64, dir string, k int
 		res.variant = v.Name
 		res.failures = append(res.failures, fs...)
 		mergeSum(&res.sum, sum)
-		last, finished := readJournal(base + ".journal")
+		last, finished, abandoned := readJournal(base + ".journal")
 		if finished && werr == nil {
 			break
 		}
@@ -596,16 +612,43 @@ func runWorkerSegments(p *Prop, bin, tier string, seed uint64, dir string, k int
 			res.failures = append(res.failures, Failure{Prop: p.ID, Idx: 0, Sub: "-", API: "WORKER", Got: "worker died before first case: " + clip(errText, 600), Want: "normal execution"})
 			break
 		}
-		if stalled {
+		if abandoned && !stalled {
+			// the worker recorded its verdict for this case and left on purpose
+		} else if stalled {
 			res.sum.Inconcl++
 			res.sum.Hist["inconclusive:stall"]++
-			res.failures = append(res.failures, Failure{Prop: p.ID, Idx: last, Sub: "-", API: "STALL", Got: fmt.Sprintf("no progress for %ds", stall), Want: "termination", Note: "watchdog"})
+			res.failures = append(res.failures, Failure{Prop: p.ID, Idx: last, Sub: "-", API: "STALL", Got: fmt.Sprintf("no progress for %ds", stall), Want: "termination", Note: "watchdog; " + stallStack(base+".err")})
 		} else {
 			res.failures = append(res.failures, Failure{Prop: p.ID, Idx: last, Sub: "-", API: "CRASH", Got: crashSignature(errText), Want: "normal return", Note: clip(errText, 1500)})
 		}
 		mine = mine[pos+1:]
 	}
 	return res
+}
+
+// stallStack returns the coregex frames of the goroutine that was running when the watchdog sent SIGQUIT.
+func stallStack(path string) string {
+	b, err := os.ReadFile(path)
+	if err != nil {
+		return ""
+	}
+	t := string(b)
+	if k := strings.Index(t, "SIGQUIT"); k >= 0 {
+		t = t[k:]
+	}
+	var frames []string
+	for _, line := range strings.Split(t, "\n") {
+		if strings.HasPrefix(line, "github.com/coregx/coregex") || strings.HasPrefix(line, "main.") {
+			if p := strings.LastIndex(line, "("); p > 0 {
+				line = line[:p]
+			}
+			frames = append(frames, strings.TrimPrefix(line, "github.com/coregx/coregex/"))
+			if len(frames) >= 14 {
+				break
+			}
+		}
+	}
+	return strings.Join(frames, " < ")
 }
 
 // crashSignature reduces a fatal error dump to its first line (stable across runs).
@@ -631,7 +674,7 @@ func tailFile(path string, n int) string {
 	return string(b)
 }
 
-func readJournal(path string) (last uint64, finished bool) {
+func readJournal(path string) (last uint64, finished, abandoned bool) {
 	b, _ := os.ReadFile(path)
 	lines := strings.Split(strings.TrimSpace(string(b)), "\n")
 	for _, l := range lines {
@@ -640,6 +683,10 @@ func readJournal(path string) (last uint64, finished bool) {
 		}
 		if strings.HasPrefix(l, "B ") {
 			last, _ = strconv.ParseUint(l[2:], 10, 64)
+			abandoned = false
+		}
+		if strings.HasPrefix(l, "X ") {
+			abandoned = true
 		}
 	}
 	return
